@@ -59,6 +59,9 @@ the stamp of each file (`File(path)` built in the body) and the registry's curre
 structure World where
   fs : FS
   ver : Nat → Nat
+  /-- tasks defined with an explicit `version=`: a pickled `Task` of such a task re-computes its hash from its own
+  pickled version string, so `Task.is_valid` cannot see that the registry moved on -/
+  pinned : Nat → Bool
 
 /-- what running a task function gives: an expression (the single reduction) or a raised error -/
 inductive Out where
@@ -75,6 +78,8 @@ structure Prog where
 structure Code where
   ver : Nat → Nat
   shallow : Nat → Bool
+  /-- the task is defined with an explicit `version=` (see `World.pinned`) -/
+  pinned : Nat → Bool := fun _ => false
 
 def Code.th (c : Code) (n : Nat) : TH := ⟨n, c.ver n⟩
 
@@ -107,7 +112,7 @@ def validE (V : Variant) (w : World) : Expr → Bool
   | .lit v => validV w v
   | .add a b => if V.simpleExprValid then validE V w a && validE V w b else true
   | .call _ a => validE V w a
-  | .catch e _ rc => (w.ver rc.name == rc.ver) && validE V w e      -- `Task.is_valid`: hash still the registry's
+  | .catch e _ rc => (w.pinned rc.name || w.ver rc.name == rc.ver) && validE V w e   -- `Task.is_valid`
 
 abbrev Key := TH × Val
 
@@ -273,7 +278,7 @@ structure RunIn where
 /-- a new `Scheduler.run`: new execution id (nothing of earlier executions is visible to the CSE query) -/
 def St.newExec (st : St) : St := { st with cse := [], log := [] }
 
-def RunIn.world (ri : RunIn) : World := ⟨ri.fs, ri.code.ver⟩
+def RunIn.world (ri : RunIn) : World := ⟨ri.fs, ri.code.ver, ri.code.pinned⟩
 
 def runOne (V : Variant) (P : Prog) (st : St) (ri : RunIn) : R :=
   eval V P ri.code ri.world ri.fuel st.newExec ri.root
